@@ -567,19 +567,34 @@ func (t *Terminal) handleKey(key rune) (line []string, ok bool) {
 		t.setLine(t.line, t.pos)
 	case keyEnter:
 		strline := strings.TrimSpace(string(t.line))
+		// find the query terminators: semicolons outside of quoted literals
+		var terms []int
+		var quote rune
+		for cur := 0; cur < len(t.line); cur++ {
+			switch ch := t.line[cur]; {
+			case quote != 0 && ch == '\\':
+				cur++ // skip the escaped character
+			case quote != 0:
+				if ch == quote {
+					quote = 0
+				}
+			case ch == '\'' || ch == '"':
+				quote = ch
+			case ch == ';':
+				terms = append(terms, cur)
+			}
+		}
 		// if the last thing entered was a query terminator
-		if len(strline) == 0 || strline[len(strline)-1:] == ";" {
+		if len(strline) == 0 || (len(terms) > 0 && strings.TrimSpace(string(t.line[terms[len(terms)-1]+1:])) == "") {
 			// not sure what this is for
 			t.moveCursorToPos(len(t.line))
 			t.queue([]rune("\r\n"))
 
 			// split string until queries terminated by ;
 			begin := 0
-			for cur := 0; cur < len(t.line); cur++ {
-				if t.line[cur] == 59 {
-					line = append(line, strings.TrimSpace(string(t.line[begin:cur+1])))
-					begin = cur + 1
-				}
+			for _, cur := range terms {
+				line = append(line, strings.TrimSpace(string(t.line[begin:cur+1])))
+				begin = cur + 1
 			}
 
 			ok = true
